@@ -13,8 +13,10 @@ import (
 // mutClasses are applied round-robin to every fixture (class k%len for the k-th mutation).
 var mutClasses = []string{
 	"trunc", "bitflip1", "bitflipN", "byteset", "linedup", "linedel", "lineswap", "chunkdup", "chunkdel",
-	"nul", "badutf8", "longline", "hugenum", "typeconf", "splice", "nestins", "trunc", "bitflipN", "typeconf", "numtweak", "delimswap",
+	"nul", "badutf8", "longline", "hugenum", "typeconf", "splice", "nestins", "kwline", "delimswap", "kwline", "numtweak", "trunc", "bitflipN", "typeconf",
 }
+// ("kwline" is a placeholder: makePlan replaces it by kwline:k<hex keyword> with a keyword of the extractor, see keywords.go;
+// the quick tier runs the first 20 classes of this list per fixture)
 
 // delimiter pairs for the "delimswap" class: closers before openers, unbalanced and nested groups
 var delimPairs = [][2]byte{{'[', ']'}, {'(', ')'}, {'{', '}'}, {'<', '>'}, {'"', '"'}, {'\'', '\''}}
@@ -321,6 +323,12 @@ func mutate(class string, seed int64, orig []byte, other func(r *rand.Rand) []by
 	}
 	if g, ok := genericDocs[class]; ok {
 		return g()
+	}
+	if kind, kw, ok := kwOfClass(class); ok {
+		if kind == "kwdoc" {
+			return kwDoc(r, kw)
+		}
+		return kwMutate(r, kw, orig)
 	}
 	panic("c02gen: unknown mutation class " + class)
 }
